@@ -16,12 +16,12 @@ def _chunk(items):
 def validate_traces(ctx: Ctx, n: int, max_len: int) -> None:
     rng = random.Random(ctx.seed * 7919 + 13)
     cls_w = ["exA", "exB", "exC", "predY", "predN"]
-    hk = ["plain", "decline", "first", "last", "deleg"]
+    hk = ["plain", "decline", "first", "last", "deleg", "abort"]
     cases = []
     for _ in range(n):
         tail = rng.random() < 0.6
         ln = rng.randint(1, max_len if tail else min(max_len, 9))
-        rec = [{"c": rng.choices(cls_w, weights=[3, 2, 1, 2, 2])[0], "h": rng.choices(hk, weights=[1, 4, 2, 2, 2])[0]}
+        rec = [{"c": rng.choices(cls_w, weights=[3, 2, 1, 2, 2])[0], "h": rng.choices(hk, weights=[2, 8, 4, 4, 4, 1])[0]}
                for _ in range(ln)]
         cases.append((ctx.seed, {"rec": rec, "tail": tail}))
     lines = []
